@@ -255,6 +255,21 @@ func (m *c20Model) apply(o c20Op) int {
 				return 1
 			}
 			m.vars[o.Name] = strconv.FormatInt(n-1, 10)
+		case "m=++n", "m=--n", "m=n++":
+			// the value of a prefix operator is the new value, of a postfix operator the old one
+			if !ok {
+				return 1
+			}
+			d := int64(1)
+			if o.Val == "m=--n" {
+				d = -1
+			}
+			m.vars[o.Name] = strconv.FormatInt(n+d, 10)
+			if o.Val == "m=n++" {
+				m.vars["b"] = strconv.FormatInt(n, 10)
+			} else {
+				m.vars["b"] = strconv.FormatInt(n+d, 10)
+			}
 		case "n":
 			if !ok {
 				return 1
@@ -422,7 +437,7 @@ func c20Ops() []c20Op {
 		ops = append(ops, c20Op{Kind: "expand", Name: "a", Val: "arith", Inner: pn, Text: "$((a=" + ref + "+1))"})
 	}
 	for _, n := range []string{"a", "A"} {
-		for _, f := range []string{"n=1", "n+=1", "n++", "++n", "--n", "n", "m=n=2", "1/0", "n=1/0", "n=08", "0&&(n=7)", "0&&1/0", "1||(n=08)", "n=0?08:5", "(1||09)+(n=7)", "-1||(n=7)", "-1&&(n=7)"} {
+		for _, f := range []string{"n=1", "n+=1", "n++", "++n", "--n", "n", "m=n=2", "1/0", "n=1/0", "n=08", "0&&(n=7)", "0&&1/0", "1||(n=08)", "n=0?08:5", "(1||09)+(n=7)", "-1||(n=7)", "-1&&(n=7)", "m=++n", "m=--n", "m=n++"} {
 			text := strings.ReplaceAll(f, "n", n)
 			text = strings.ReplaceAll(text, "m=", "b=")
 			ops = append(ops, c20Op{Kind: "eval", Name: n, Val: f, Text: text})
